@@ -147,6 +147,7 @@ def run_pooled_client_program(base, P, codes, programs, maxsize, prefix, gran):
 
     def worker(prog):
         def w(i):
+            from pymemcache.exceptions import MemcacheError
             for op in prog:
                 try:
                     if op == "clear":
@@ -155,10 +156,24 @@ def run_pooled_client_program(base, P, codes, programs, maxsize, prefix, gran):
                         pc.set("k%d" % i, b"v")
                     elif op == "fail":
                         pc.get("k")          # the 2nd recv of the execution is reset: whoever gets it fails
+                    elif op == "bad":
+                        pc.get("illegal key")            # rejected before any exchange, while holding a connection
                     else:
                         pc.quit()
-                except (RuntimeError, OSError, Exception):   # noqa -- failing calls are part of the program
-                    pass
+                except Exception as e:   # noqa -- failing calls are part of the program; WHAT escapes is part of the contract
+                    if isinstance(e, RuntimeError) and "Too many objects" in str(e):
+                        x = "capacity"
+                    elif isinstance(e, (OSError, MemcacheError)):
+                        x = "conn"
+                    else:
+                        # an error raised INSIDE the pool's code is the pool's internal error; one raised in the connection
+                        # code (e.g. the connection was closed under this thread by another thread's close()) is the
+                        # price of closing a client that is in use, not C08's subject
+                        import traceback
+                        tb = traceback.extract_tb(e.__traceback__)
+                        inside = bool(tb) and tb[-1].filename.replace("\\", "/").endswith("pymemcache/pool.py")
+                        x = ("other:" + type(e).__name__) if inside else "conn"
+                    rec.ev.append({"e": "raise", "t": i + 1, "m": "api", "x": x})
         return w
     try:
         ch = ctrl.run([worker(p) for p in programs], prefix)
@@ -180,7 +195,8 @@ def _explore_chunk(arg):
                [base.Client.close.__code__, base.Client._connect.__code__]
     seen = {}
     nexec = [0]
-    for kind, programs, ms, p, gran in plans:
+    for kind, programs, ms, p, gran, *rest in plans:
+        mult = rest[0] if rest else 1
         def make_run(prefix, kind=kind, programs=programs, ms=ms, gran=gran):
             if kind == "pool":
                 ev, ch = run_pool_program(P, pool_codes, programs, ms, prefix, gran)
@@ -191,7 +207,7 @@ def _explore_chunk(arg):
             if key not in seen:
                 seen[key] = {"h": {"max": ms, "maxrej": 4}, "ev": ev, "what": (kind, programs, ms, gran), "prefix": list(prefix)}
             return ch
-        sched.explore(make_run, p, max_execs=budget * (8 if len(programs) == 2 and len(programs[0]) == 1 else 1))
+        sched.explore(make_run, p, max_execs=budget * mult * (8 if len(programs) == 2 and len(programs[0]) == 1 else 1))
     return seen, nexec[0]
 
 
@@ -223,9 +239,14 @@ def main(tier, rep):
             plans.append(("pool", [a, b], ms, 1 if tier == "quick" else 2, "line"))
         for a, b, c in itertools.product(one, one, one):
             plans.append(("pool", [a, b, c], ms, 1 if tier == "quick" else 2, "line"))
+    pcone = one + [["bad"]]
     for ms in (1, 2):
-        for a, b in itertools.product(one, one):
+        for a, b in itertools.product(pcone, pcone):
             plans.append(("pc", [a, b], ms, 1 if tier == "quick" else 2, "line"))
+    # a call rejected before any exchange next to an ordinary call: two preemptions (the window is inside one call)
+    for ms in (1, 2):
+        for other in (["ok"], ["fail"]):
+            plans.append(("pc", [["bad"], other], ms, 2, "line", 3))
     if tier == "thorough":
         for ms in (1, 2):
             for a, b in itertools.product(one, one):
